@@ -226,8 +226,8 @@ func TestVerifC01Decoder(t *testing.T) {
 		pre, post []byte
 		patch     func(b []byte)
 	}{
-		{pre: append([]byte(nil), qmsg[:12]...), post: []byte{0, 1, 0, 1}},                                        // question name
-		{pre: rrPrefix[:len(rrPrefix)-1], post: []byte{0, 1, 0, 1, 0, 0, 0, 1, 0, 4, 1, 2, 3, 4}},                  // RR owner
+		{pre: append([]byte(nil), qmsg[:12]...), post: []byte{0, 1, 0, 1}},                                          // question name
+		{pre: rrPrefix[:len(rrPrefix)-1], post: []byte{0, 1, 0, 1, 0, 0, 0, 1, 0, 4, 1, 2, 3, 4}},                   // RR owner
 		{pre: append(append([]byte(nil), rrPrefix[:len(rrPrefix)-1]...), 0xC0, 0x0C, 0, 5, 0, 1, 0, 0, 0, 1, 0, 0)}, // CNAME rdata (RDLENGTH patched)
 	}
 	var str []int
